@@ -56,7 +56,7 @@ def main():
             continue
         res = {}
         try:
-            for c in CHECKS[area]:
+            for c in CHECKS[area.rstrip('0123456789')]:
                 rc, o = sh("./check %s --tier quick" % c, cwd=ROOT)
                 lines = [l for l in o.splitlines() if l.startswith(("VIOLATION", "OK "))]
                 detail = None
